@@ -784,6 +784,7 @@ def run_hash(ctx, idx):
     tmp = pathlib.Path(boot.scratch()) / f"hash{idx}"
     tmp.mkdir(parents=True, exist_ok=True)
     _new_case()
+    cwd0 = os.getcwd()
     try:
         nf = int(rng.integers(2, 5))
         files = [tmp / f"f{i}.bin" for i in range(nf)]
@@ -800,7 +801,12 @@ def run_hash(ctx, idx):
             write(p, rng.bytes(int(rng.choice(sizes))))
         link = tmp / "link.bin"
         os.symlink(files[0], link)
+        link_target = [0]
         (tmp / "sub").mkdir()
+        # the same relative name in two working directories
+        for k_ in (1, 2):
+            (tmp / f"run_{k_}").mkdir()
+            write(tmp / f"run_{k_}" / "same.bin", rng.bytes(int(rng.choice(sizes[1:]))))
         n_ops = int(rng.integers(60, 201))
         ctors = [None, hashlib.md5, hashlib.sha1, hashlib.sha256]
         rewritten_since = {}
@@ -810,6 +816,14 @@ def run_hash(ctx, idx):
             r = rng.random()
             fi = int(rng.integers(0, nf))
             p = files[fi]
+            if r < 0.06:
+                # the symbolic link is re-pointed to another file
+                j_ = int(rng.choice([j for j in range(nf) if j != link_target[0]]))
+                link.unlink()
+                os.symlink(files[j_], link)
+                link_target[0] = j_
+                ctx.count("hash_file_op[relink]")
+                continue
             if r < 0.25:
                 kind = str(rng.choice(["new_size", "same_size", "append", "truncate", "delete",
                                        "replace", "restore_stat", "same_content_touch",
@@ -848,7 +862,8 @@ def run_hash(ctx, idx):
                 rewritten_since[fi] = True
                 continue
             # ---- a hashfile call
-            form = str(rng.choice(["path", "str", "relative", "symlink", "dotdot"]))
+            form = str(rng.choice(["path", "str", "relative", "symlink", "dotdot",
+                                   "cwd_relative"]))
             if form == "path":
                 arg = p
             elif form == "str":
@@ -857,7 +872,12 @@ def run_hash(ctx, idx):
                 arg = os.path.relpath(p)
             elif form == "symlink":
                 arg = link
-                fi, p = 0, files[0]
+                fi, p = link_target[0], files[link_target[0]]
+            elif form == "cwd_relative":
+                k_ = int(rng.integers(1, 3))
+                os.chdir(tmp / f"run_{k_}")
+                arg = "same.bin"
+                fi = 100 + k_
             else:
                 arg = tmp / "sub" / ".." / p.name
             blocksize = int(rng.choice([1, 7, 64, 1000, 65536]))
@@ -897,6 +917,10 @@ def run_hash(ctx, idx):
             ctx.sample({"kind": "hash", "case": idx, "files": nf, "ops": n_ops,
                         "lru_cache_info": repr(ci)})
     finally:
+        try:
+            os.chdir(cwd0)
+        except Exception:
+            pass
         shutil.rmtree(tmp, ignore_errors=True)
 
 
